@@ -74,7 +74,7 @@ def gen_scenario(rng, tier, sid):
     du = (Fr(1, qr) * lam * z * os_ / dx[0], Fr(1, qc) * lam * z * os_ / dx[1])
     M, K = rng.randint(1, 4), rng.randint(1, 4)
     pM, pK = (M, K) if rng.random() < 0.6 else (rng.randint(1, M), rng.randint(1, K))
-    extra = rng.choice(('none', 'none', 'wftilt', 'tiltplane', 'mask'))
+    extra = rng.choice(('none', 'none', 'wftilt', 'tiltplane', 'mask', 'wftilt+tiltplane'))
     omask = None
     if extra == 'mask':
         omask = np.zeros((M * os_, K * os_), dtype=int)
@@ -96,7 +96,7 @@ def gen_scenario(rng, tier, sid):
             flat = (s.sum(axis=0) > 0).astype(int)
             kw = dict(px=dx, z=z) if i == 0 else dict(z=z)
             if var == '3d':
-                st = ox.plane('Pupil', amp=a, opd=o, mask=s if len(s) > 1 else s[0], **kw)
+                st = ox.plane('Pupil', amp=a, opd=o, mask=s, **kw)       # (a partition into ONE segment is a cube of depth 1)
             elif var == '2d':
                 st = ox.plane('Pupil', amp=a, opd=o, mask=flat, **kw)
             elif var == '2d-fullamp':
@@ -106,9 +106,13 @@ def gen_scenario(rng, tier, sid):
             steps.append(st)
         if extra == 'tiltplane':
             steps.append(ox.plane('Tilt', tx=tang[0], ty=tang[1]))
+        if extra == 'wftilt+tiltplane':
+            # a wavefront that already carries tilt is split by the segments and THEN meets a tilt element (half a sample more:
+            # the total stays an odd number of quarter samples)
+            steps.append(ox.plane('Tilt', tx=Fr(1, 2) * du[0] / (z * os_), ty=-Fr(1, 2) * du[1] / (z * os_)))
         steps.append(prop)
         variants[var] = dict(sid=sid, N=N, var=var, nseg=len(segs), single=bool(single), chain=len(planes), extra=extra,
-                             overlapping_bboxes=overlapping(segs), wf=ox.wf(lam, tilt=tang if extra == 'wftilt' else None), steps=steps,
+                             overlapping_bboxes=overlapping(segs), wf=ox.wf(lam, tilt=tang if extra in ('wftilt', 'wftilt+tiltplane') else None), steps=steps,
                              thm='segments' if (var == '3d' and N <= 32 and rng.random() < 0.3) else 'none')
     return list(variants.values())
 
